@@ -187,6 +187,7 @@ static Verdict runStdio(const K &k) {
 }
 
 // --------------------------------------------------------------------- abort
+extern "C" size_t __sanitizer_get_current_allocated_bytes() __attribute__((weak));
 static int openFds() { int n = 0; DIR *d = opendir("/proc/self/fd"); if (!d) return -1; while (readdir(d)) n++; closedir(d); return n; }
 static Verdict runAbort(const K &k) {
   Verdict vd;
@@ -198,31 +199,47 @@ static Verdict runAbort(const K &k) {
   for (long n = 0; n <= total; n++) {
     evals++;
     int fds0 = openFds();
-    cw::WriteCtl ctl; ctl.abort_after = n;
-    cw::runHistory(k.w, lv, ctl);
-    PBT_CHECK(vd, ctl.aborted || !ctl.created, "history of %ld calls was not aborted at %ld", total, n);
     struct stat sb;
-    bool exists = !ctl.path.empty() && stat(ctl.path.c_str(), &sb) == 0;
-    if (exists) unlink(ctl.path.c_str());
-    PBT_CHECK(vd, !exists, "carquet_writer_abort after %ld of %ld calls leaves the file %s behind", n, total, ctl.path.c_str());
+    // "releases all resources": the number of live heap bytes after the abort equals the number before the writer was created
+    // (exact, unlike a conservative leak scan that a stale pointer on the stack can blind)
+    bool aborted_or_uncreated = false, exists = false; char pathbuf[300] = {0};
+    size_t heap0 = __sanitizer_get_current_allocated_bytes ? __sanitizer_get_current_allocated_bytes() : 0;
+    {
+      cw::WriteCtl ctl; ctl.abort_after = n;
+      cw::runHistory(k.w, lv, ctl);
+      aborted_or_uncreated = ctl.aborted || !ctl.created;
+      exists = !ctl.path.empty() && stat(ctl.path.c_str(), &sb) == 0;
+      if (exists) unlink(ctl.path.c_str());
+      snprintf(pathbuf, sizeof pathbuf, "%s", ctl.path.c_str());
+    }
+    size_t heap1 = __sanitizer_get_current_allocated_bytes ? __sanitizer_get_current_allocated_bytes() : 0;
+    PBT_CHECK(vd, aborted_or_uncreated, "history of %ld calls was not aborted at %ld", total, n);
+    PBT_CHECK(vd, !exists, "carquet_writer_abort after %ld of %ld calls leaves the file %s behind", n, total, pathbuf);
+    PBT_CHECK(vd, heap1 <= heap0, "carquet_writer_abort after %ld of %ld calls leaves %zu heap bytes allocated", n, total, heap1 - heap0);
     int fds1 = openFds();
     PBT_CHECK(vd, fds0 == fds1, "carquet_writer_abort after %ld calls: %d descriptors open before create, %d after abort", n, fds0, fds1);
     // the same abort while the sink is broken: every stream operation issued by the abort itself fails
     {
       evals++;
-      cw::WriteCtl c2; c2.abort_after = n;
-      g_io_calls = 0; g_io_fail_at = -1; g_io_fail_from = -1; g_io_hit = false; g_io_armed = true;
-      c2.before_abort = []() { g_io_fail_from = g_io_calls; };
-      cw::runHistory(k.w, lv, c2);
-      g_io_armed = false; g_io_fail_from = -1;
-      bool ex2 = !c2.path.empty() && stat(c2.path.c_str(), &sb) == 0;
-      if (ex2) unlink(c2.path.c_str());
-      PBT_CHECK(vd, !ex2, "carquet_writer_abort after %ld of %ld calls on a sink whose flush/close fails leaves the file %s behind", n, total, c2.path.c_str());
+      bool ex2 = false;
+      size_t h0 = __sanitizer_get_current_allocated_bytes ? __sanitizer_get_current_allocated_bytes() : 0;
+      {
+        cw::WriteCtl c2; c2.abort_after = n;
+        g_io_calls = 0; g_io_fail_at = -1; g_io_fail_from = -1; g_io_hit = false; g_io_armed = true;
+        c2.before_abort = []() { g_io_fail_from = g_io_calls; };
+        cw::runHistory(k.w, lv, c2);
+        g_io_armed = false; g_io_fail_from = -1;
+        ex2 = !c2.path.empty() && stat(c2.path.c_str(), &sb) == 0;
+        if (ex2) unlink(c2.path.c_str());
+        snprintf(pathbuf, sizeof pathbuf, "%s", c2.path.c_str());
+      }
+      size_t h1 = __sanitizer_get_current_allocated_bytes ? __sanitizer_get_current_allocated_bytes() : 0;
+      PBT_CHECK(vd, !ex2, "carquet_writer_abort after %ld of %ld calls on a sink whose flush/close fails leaves the file %s behind", n, total, pathbuf);
+      PBT_CHECK(vd, h1 <= h0, "carquet_writer_abort on a failing sink after %ld of %ld calls leaves %zu heap bytes allocated", n, total, h1 - h0);
       int fds2 = openFds();
       PBT_CHECK(vd, fds0 == fds2, "carquet_writer_abort on a failing sink after %ld calls: %d descriptors open before create, %d after abort", n, fds0, fds2);
     }
   }
-  if (__lsan_do_recoverable_leak_check) PBT_CHECK(vd, __lsan_do_recoverable_leak_check() == 0, "memory leaked by a writer that was aborted (LeakSanitizer report above)");
   vd.evals = std::max<long>(1, evals); vd.nontrivial = total >= 2;
   return vd;
 }
